@@ -201,7 +201,7 @@ def _closure_packed(b, node, want):
                     out.append(pl_[0])
                 found = True
         elif al_ is not None and cn.endswith("then_some") and a_ is node["args"][-1]:
-            out.append(al_)
+            out.append(("whole", al_))      # the packed value itself: the field is still to be selected from it
             found = True
     return out if found else None
 
@@ -263,7 +263,11 @@ def pack_leaves(b, operand, depth=12, by_ctor=None):
                 else:
                     if not via:
                         mismatch = True
-                    nxt.extend((x, w[1:] if w else (), ctor or site) for x in via)
+                    for x in via:
+                        if isinstance(x, tuple):
+                            nxt.append((x[1], w, ctor))
+                        else:
+                            nxt.append((x, w[1:] if w else (), ctor or site))
                 continue
             if kind == "part":
                 continue
@@ -297,6 +301,8 @@ def pack_leaves(b, operand, depth=12, by_ctor=None):
                     q = op_place(o)
                     if q is not None:
                         nxt.append((q["l"], rest, ctor or (site if rv.get("akind") == "adt" and not str(rv.get("name", "")).startswith("std::option::Option") else None)))
+                    elif len(ops) == 1 and want:
+                        mismatch = True     # the field that is read was packed from a constant: nothing to follow, and not a leaf
             else:
                 pure = False
         if pure and not nxt and mismatch:
@@ -587,7 +593,7 @@ def check_no_tail_regress(ctx, facts):
         seen = seen if seen is not None else set()
         bad = []
         if op.get("k") == "const":
-            if op.get("val") == 0 and any(b.edge_guards(e, at_bb) for e in neq_edges(blk_show)):
+            if op.get("val") == 0 and (any(b.edge_guards(e, at_bb) for e in neq_edges(blk_show)) or b.edges_guard(neq_edges(blk_show), at_bb)):
                 return []
             return [(at_bb, "constant %s" % op.get("val"))]
         e = strip_refs(expr(b, op))
@@ -628,8 +634,28 @@ def check_no_tail_regress(ctx, facts):
                     continue
                 by_ctor = {}
                 pack_leaves(b, xop, by_ctor=by_ctor)
+                # ... and the offset handed to the setter is the one packed with that block id (the same constructed value)
+                by_ctor_off = {}
+                pack_leaves(b, ops[-1], by_ctor=by_ctor_off)
+                if not by_ctor and (P.bb, P.idx) not in seen_ctor:
+                    # the pair itself is built with the flag (`Some((active_block.id | TAIL_FLAG, 0))` handed to a helper)
+                    bshow = show(strip_refs(expr(b, xop)), 8)
+                    if bshow.endswith(".id"):
+                        seen_ctor.add((P.bb, P.idx))
+                        n += 1
+                        bad = judge(ops[-1], P.bb, bshow)
+                        if bad:
+                            ctx.violate("C09.1e", F, "tail-position-persisted-behind-progress", b.relfile, P.line,
+                                        "read_next persists (active block | TAIL_FLAG, %s) without regard to the tail offset this reader has already reached in that block: an empty poll, or a crash "
+                                        "before the read that follows, leaves the durable position at the start of the block and a StrictlyAtOnce consumer gets the whole tail block again" % bad[0][1])
+                        else:
+                            ctx.ok("C09.1e", F, "provisional tail persist carries the in-memory tail offset (0 only when the reader was not in this block)", b.relfile, P.line)
                 for (cbb, cidx), (csite, _lv) in by_ctor.items():
                     if (cbb, cidx) in seen_ctor:
+                        continue
+                    rv0 = csite.node.get("rv") if csite.idx != "term" else None
+                    off_const_same = rv0 is not None and rv0.get("k") == "agg" and len(rv0.get("ops", [])) == 2 and rv0["ops"][1].get("k") == "const" and ops[-1].get("k") != "const" and not pack_leaves(b, ops[-1])
+                    if (cbb, cidx) not in by_ctor_off and not off_const_same:
                         continue
                     rvc = csite.node["rv"] if csite.idx != "term" and csite.node.get("rv") else None
                     if not (rvc and rvc["k"] == "agg" and rvc.get("akind") == "adt" and len(rvc["ops"]) == 2):
